@@ -79,6 +79,12 @@ def curve_insert(ctx, p, mult, r, rational, dim, norm=True):
     ctx.check_eq_vec('shape.unchanged', crv.evaluate_single(u), want)
     if rational:
         ctx.check_true('weights.count', len(crv.weights) == n + r)
+    # the helper called directly, with its optional arguments (multiplicity s=, span=) left to their defaults
+    hp = ctx.geomdl('helpers')
+    Q = hp.knot_insertion(p, list(U), [list(q) for q in Pw], x, num=r)
+    ctx.check_true('helper.defaults.len', len(Q) == n + r)
+    if len(Q) == n + r:
+        ctx.check_eq_grid('helper.defaults=object_level_result', Q, crv.ctrlptsw if rational else crv.ctrlpts)
 
 
 def _surf_shapes(tier):
